@@ -44,7 +44,8 @@ type c02Case struct {
 	Cache   int    `json:"cache"` // 0 = caching disabled
 	First   string `json:"first_path"`
 	Strict  bool   `json:"strict_last_slash,omitempty"`
-	Twin    string `json:"twin,omitempty"` // "", "before", "after": a same-shape route with other variable names under POST
+	Twin    string `json:"twin,omitempty"`       // "", "before", "after": a same-shape route with other variable names under POST
+	Redisp  bool   `json:"redispatch,omitempty"` // the route's handler re-dispatches (HandleContext) to a static and to another dynamic route
 }
 
 var c02VarName = regexp.MustCompile(`\{([a-z]+)`)
@@ -131,6 +132,11 @@ func init() {
 }
 
 func c02Gen(tier string, emit func(c02Case)) {
+	for _, pat := range c02Pool {
+		for _, cc := range []int{0, 2} {
+			emit(c02Case{Pattern: pat, Cache: cc, Redisp: true})
+		}
+	}
 	caches := []int{0, 1, 2}
 	for _, pat := range c02Pool {
 		paths := c02PathCache[pat]
@@ -177,6 +183,9 @@ func c02Run(c c02Case, st *fw.Stats) []fw.Viol {
 		if len(viols) < 6 {
 			viols = append(viols, fw.Viol{Sig: sig, Msg: msg})
 		}
+	}
+	if c.Redisp {
+		return c02Redispatch(c, st, add, &viols)
 	}
 	pt, err := refmodel.CachedPattern(refmodel.Norm(c.Pattern, c.Strict))
 	if err != nil {
@@ -260,11 +269,63 @@ func c02Run(c c02Case, st *fw.Stats) []fw.Viol {
 	return viols
 }
 
+// the handler of the pattern's route re-dispatches the request with HandleContext: the target's handlers must see
+// exactly the target's parameters (none for a static target), whatever the first route captured
+func c02Redispatch(c c02Case, st *fw.Stats, add func(sig, msg string), viols *[]fw.Viol) []fw.Viol {
+	pt, err := refmodel.CachedPattern(refmodel.Norm(c.Pattern, false))
+	if err != nil {
+		panic(err)
+	}
+	for _, target := range []string{"/zstatic/target", "/zdyn/77", "/zopt"} {
+		if pt.Matches(target) {
+			continue // the pattern would take the re-dispatched request itself (endless re-dispatch)
+		}
+		var opts []func(*rux.Router)
+		if c.Cache > 0 {
+			opts = append(opts, rux.CachingWithNum(uint16(c.Cache)))
+		}
+		r := rux.New(opts...)
+		var seen string
+		var ran int
+		r.GET(c.Pattern, func(ctx *rux.Context) {
+			ctx.Req.URL.Path = target
+			ctx.Router().HandleContext(ctx)
+		})
+		rec := func(ctx *rux.Context) { seen = canonParams(ctx.Params); ran++ }
+		r.GET("/zstatic/target", rec)
+		r.GET("/zdyn/{q}", rec)
+		r.GET("/zopt[/{o}]", rec)
+		want := map[string]string{"/zstatic/target": "", "/zdyn/77": "q=77", "/zopt": "o="}[target]
+		for _, p := range c02PathCache[c.Pattern] {
+			if !pt.Matches(refmodel.Norm(p, false)) || pt.Static {
+				continue
+			}
+			for rep := 0; rep < 2; rep++ {
+				st.Evals++
+				st.Nontrivial++
+				seen, ran = "<not run>", 0
+				if _, pv := serve(r, "GET", p); pv != nil {
+					add("redispatch:panic", fmt.Sprintf("route GET %s re-dispatching %q to %q panicked: %v", c.Pattern, p, target, pv))
+					break
+				}
+				if ran != 1 || seen != want {
+					add("params:redispatch", fmt.Sprintf("route GET %s (cache=%d): request %q re-dispatched with HandleContext to %q: the target's handler ran %d time(s) and saw params {%s}, expected {%s}", c.Pattern, c.Cache, p, target, ran, seen, want))
+					break
+				}
+			}
+			if len(*viols) > 0 {
+				break
+			}
+		}
+	}
+	return *viols
+}
+
 var c02Spec = fw.Spec[c02Case]{
 	ID:    "C02",
 	Level: "model_checking",
 	Rule: "complete product per pattern: every ordered pair (p,q) of candidate paths (all value tuples over 12 values substituted at every optional depth, plus perturbations) requested as the history p,q,p,q on routers with cache off / capacity 1 / capacity 2, via Match and ServeHTTP; " +
-		"oracle = back-tracking reference matcher (all decompositions); non-trivial = a request whose path matches the dynamic pattern",
+		"oracle = back-tracking reference matcher (all decompositions); plus every matching path re-dispatched by its handler (HandleContext) to a static, a dynamic and an optional route, whose handlers must see exactly their own parameters; non-trivial = a request whose path matches the dynamic pattern",
 	Assume: []string{"values and patterns are drawn from the stated alphabets", "handlers treat Params as read-only"},
 	Bounds: func(tier string) map[string]any {
 		n := 0
